@@ -39,6 +39,7 @@ type Cell struct {
 	Off     []string `json:"off"`
 	Pm      string   `json:"pm,omitempty"`
 	Hook    string   `json:"hook,omitempty"`
+	Hole    bool     `json:"hole"`
 	App     string   `json:"app,omitempty"`
 }
 
@@ -180,11 +181,13 @@ func key(c Cell) string { b, _ := json.Marshal(c); return string(b) }
 func (r *runner) execState(s *sim.Env, root int, cells []Cell) {
 	f := r.f
 	// ---------------- owner matrix: the owner's own attempt first (non-vacuity reference), then the others
-	var own, priv, kill, ctl, hook, auc []Cell
+	var own, priv, kill, ctl, hook, auc, open []Cell
 	for _, c := range cells {
 		switch c.M {
 		case "own":
 			own = append(own, c)
+		case "open":
+			open = append(open, c)
 		case "priv":
 			priv = append(priv, c)
 		case "kill":
@@ -213,6 +216,21 @@ func (r *runner) execState(s *sim.Env, root int, cells []Cell) {
 			ref[rk] = id
 			args["ref"] = id
 		}
+	}
+	// ---------------- opening messages by third parties, on the state as it is and after an older position was removed
+	for _, c := range open {
+		e := s.Branch()
+		holed := false
+		if c.Hole {
+			holed = f.MakeHole(e, c.Msg)
+		}
+		sg := f.signer(c.Signer)
+		msg := builders[c.Msg](f, e, sg, sg, "oracle", Ax{"small", "home"})
+		pre, vpre := e.Digest(), f.HoldersView(e)
+		res, dirty := deliverObserved(e, msg, pre)
+		post, vpost := e.Digest(), f.HoldersView(e)
+		r.lg.Add(root, r.run, "Open", map[string]interface{}{"m": c.M, "msg": c.Msg, "signer": c.Signer, "hole": c.Hole}, rj(res),
+			map[string]interface{}{"pre": pre, "post": post, "vpre": vpre, "vpost": vpost, "dirty": dirty, "holed": holed})
 	}
 	// ---------------- privileged matrix: reference = the contract designated for the variant, on comdex-1
 	isRef := func(c Cell) bool { return c.Chain == "comdex-1" && c.Sender == c.Des && (c.Pay == "na" || c.Pay == "caller") }
@@ -343,13 +361,17 @@ func (r *runner) execState(s *sim.Env, root int, cells []Cell) {
 				PriceActive(e, f.CMDX, false)
 			}
 		}
-		pre, vpre := e.Digest(), f.HookViewOf(e, app)
+		peer := f.AppTwin // the other vault app of the same sweep loops
+		if app == f.AppTwin {
+			peer = f.AppHarbor
+		}
+		pre, vpre, ppre := e.Digest(), f.HookViewOf(e, app), f.HookViewOf(e, peer)
 		res := f.runHook(e, c.Hook)
-		post, vpost := e.Digest(), f.HookViewOf(e, app)
+		post, vpost, ppost := e.Digest(), f.HookViewOf(e, app), f.HookViewOf(e, peer)
 		args := map[string]interface{}{"m": c.M, "hook": c.Hook, "app": c.App, "breaker": c.Breaker, "esm": c.Esm, "off": c.Off, "pm": c.Pm, "ref": ref[c.Hook]}
 		id := r.lg.Add(root, r.run, "Hook", args, rj(res), map[string]interface{}{"pre": pre, "post": post,
 			"seizedPre": vpre.Seized, "seizedPost": vpost.Seized, "aucPre": vpre.Auctions, "aucPost": vpost.Auctions,
-			"seizedNew": NewIn(vpre.SeizedID, vpost.SeizedID), "aucNew": NewIn(vpre.AucID, vpost.AucID)})
+			"seizedNew": NewIn(vpre.SeizedID, vpost.SeizedID), "aucNew": NewIn(vpre.AucID, vpost.AucID), "peerNew": NewIn(ppre.SeizedID, ppost.SeizedID)})
 		if !c.Breaker && c.Esm == "off" && len(c.Off) == 0 {
 			ref[c.Hook] = id
 			args["ref"] = id
@@ -418,6 +440,14 @@ func Main(args []string) int {
 		root := lg.Add(0, r.run, "State", map[string]interface{}{"k": k, "seed": *seed, "steps": *steps, "ops": ops}, map[string]interface{}{}, map[string]interface{}{"pre": s.Digest(), "post": s.Digest()})
 		r.execState(s, root, cells)
 	}
+	{
+		// the holey state: older positions removed, third parties opened new ones; the complete matrix runs on it
+		s := f.E.Branch()
+		ops := f.MakeHoley(s)
+		r.run = "h"
+		root := lg.Add(0, r.run, "State", map[string]interface{}{"k": -1, "seed": *seed, "steps": *steps, "ops": ops}, map[string]interface{}{}, map[string]interface{}{"pre": s.Digest(), "post": s.Digest()})
+		r.execState(s, root, cells)
+	}
 	if *probe {
 		for _, n := range lg.Nodes {
 			b, _ := json.Marshal(n)
@@ -440,6 +470,8 @@ func refOf(c Cell) Cell {
 		r.Signer = c.Holder
 	case "priv":
 		r.Chain, r.Sender = "comdex-1", c.Des
+	case "open":
+		r.Hole = false
 	case "ctl", "hook", "auc":
 		r.Breaker, r.Esm, r.Off, r.Pm = false, "off", []string{}, "na"
 	}
@@ -472,6 +504,8 @@ func replayMain(path string) int {
 	ops := []string{}
 	if k > 0 {
 		ops = f.RandomPrefix(s, sim.NewRng(seed*1000+k), int(steps))
+	} else if k < 0 {
+		ops = f.MakeHoley(s)
 	}
 	lg := &sim.Log{}
 	r := &runner{f: f, lg: lg, run: fmt.Sprintf("s%d", k)}
